@@ -337,7 +337,7 @@ def replay_one(pname, hist):
         w.teardown()
 
 
-def replay(hist, pollers=POLLERS):
+def replay_history(hist, pollers=POLLERS):
     """Replay a history on the given pollers; combine into one trace."""
     runs = {p: replay_one(p, hist) for p in pollers}
     first = runs[pollers[0]]
@@ -370,7 +370,7 @@ def only(lines, pollers):
 def replay_many(hists):
     """Replays are independent and cheap (a few ms each); they run serially so
     that the run time stays predictable on a shared machine."""
-    return [replay(h) for h in hists]
+    return [replay_history(h) for h in hists]
 
 
 # ---------------------------------------------------------------------------
@@ -579,6 +579,8 @@ def corrupt(rnd, lines):
     polls = [i for i, ln in enumerate(lines) if ln['k'] == 'poll']
     out = [dict(ln) for ln in lines]
     how = rnd.choice(['drop', 'retarget', 'ghost', 'dup', 'unready', 'split'])
+    if how == 'split' and len({ln['p'] for ln in lines} - {''}) < 2:
+        how = 'drop'          # a single poller cannot disagree with itself
     if how in ('drop', 'split') and not calm:
         how = 'retarget'
     if how in ('retarget', 'dup', 'unready') and not evs:
@@ -637,7 +639,7 @@ INIT_LINES = [line('open', o=1, a=1), line('open', o=2, a=2)]
 def run_replay(path):
     rec = json.load(open(path))
     hist = [list(x) for x in rec['detail']['hist']]
-    lines, notes = replay(hist)
+    lines, notes = replay_history(hist, rec['detail'].get('pollers') or POLLERS)
     res, _ = judge([lines], 1)
     for i, ln in enumerate(lines, 1):
         print('%3d %s' % (i, json.dumps(ln, sort_keys=True)))
@@ -672,22 +674,59 @@ def run(tier, replay=None):
 
     # 1. the property on the design: the complete reachable state space (no bound on the
     #    length of the history) of Select / pinned Poll / fixed Poll / EPoll with objects 1 and 3
-    #    registrable, all invariants.  One worker: the search order, hence the dump, is
-    #    deterministic.  Every dumped state carries the history by which TLC first reached it
-    #    (prefix-closed per algorithm): the state-cover suite.
-    mc, model, bads = dump_histories('MC_Poller.cfg', workers=1)
-    mc_states, mc_trans = mc.distinct, mc.generated
-    # no dead action: every operation of the model occurs in those histories
-    seen_ops = {x[0] for k in model for x in k[1]}
+    #    registrable, all invariants ("poll", the defect generator, is exempt from Conforms)
+    suite = {}        # history -> origin; every history is replayed on all three pollers
+    model = {}        # (kind, history) -> lines the model emits in the last step
+
+    def add(h, origin):
+        if h:
+            suite.setdefault(h, origin)
+
+    cover_states = 0
+    if quick:
+        mc = tlc.model_check(SPEC, 'Poller', 'MC_Poller.cfg')
+        mc_states, mc_trans = mc.distinct, mc.generated
+    else:
+        # ... dumped (one worker: deterministic search order): every state carries the history by
+        # which TLC first reached it (prefix-closed per algorithm) = a state cover of the model
+        mc, cover, bads = dump_histories('MC_Poller_cover.cfg', workers=1)
+        mc_states, mc_trans = mc.distinct, mc.generated
+        cover_states = mc.distinct
+        if not any(k[0] == 'poll' and b == 'C10.ghost_fd' for k, b in bads.items()) or any(k[0] != 'poll' for k in bads):
+            raise tlc.MachineryError('state dump: only the "poll" variant may and must reach C10.ghost_fd, got %r'
+                                     % (sorted({(k[0], b) for k, b in bads.items()}),))
+        model.update(cover)
+        for h in maximal({k[1] for k in cover}):
+            add(h, 'tlc-state-cover')
+        # the same over objects 1, 2, 3 (both ends of a pair registered), fixed algorithms
+        mc2 = tlc.model_check(SPEC, 'Poller', 'MC_Poller_thorough.cfg')
+        mc_states += mc2.distinct
+        mc_trans += mc2.generated
+    phase('mc')
+    # the defect generator: with the pinned Poll's stale map TLC must report C10 violated
+    gen = tlc.run_tlc(SPEC, 'Poller', 'MC_Poller_stale.cfg', workers=1)     # one worker: the same shortest counterexample every run
+    if gen.violated != 'ConformsAll' or not gen.error_trace:
+        raise tlc.MachineryError('the "poll" variant of Poller.tla no longer violates C10 (got %r): the model lost its teeth' % gen.violated)
+    gen_hist = hkey(gen.error_trace[-1][1]['hist'])
+    gen_clause = gen.error_trace[-1][1].get('bad')
+    phase('mc_stale')
+
+    # 2. every environment history of <= 4 operations (no VIEW: one state per history), with the
+    #    lines each algorithm emits
+    res, model4, _ = dump_histories('HIST_Poller.cfg' if quick else 'HIST_Poller_thorough.cfg')
+    hist_states = res.distinct
+    for k, v in model4.items():
+        model.setdefault(k, v)
+    # no dead action: every operation of the model occurs in the enumerated histories
+    seen_ops = {x[0] for k in model4 for x in k[1]}
     for op in ('addr', 'addw', 'remr', 'remw', 'discard', 'send', 'drain', 'fill', 'close', 'dclose', 'openb', 'creopen'):
         if op not in seen_ops:
             raise tlc.MachineryError('vacuous model: operation %s never taken' % op)
-    # the defect generator: the pinned Poll's stale map must violate C10.ghost_fd in the model
-    gen = sorted((len(k[1]), k[1]) for k, b in bads.items() if k[0] == 'poll' and b == 'C10.ghost_fd')
-    if not gen or any(k[0] != 'poll' for k in bads):
-        raise tlc.MachineryError('the "poll" variant of Poller.tla no longer violates C10.ghost_fd (or another variant '
-                                 'violates something): %r' % (sorted(set(bads.values())),))
-    gen_hist = gen[0][1]
+    for h in maximal({k[1] for k in model4}):
+        add(h, 'tlc-history')
+    add(gen_hist, 'tlc-counterexample')
+    suite[gen_hist] = 'tlc-counterexample'
+    phase('dump')
 
     def model_lines(kd, h):
         out = list(INIT_LINES)
@@ -698,50 +737,16 @@ def run(tier, replay=None):
             out += part
         return out
 
-    # which Poll algorithm does the tree under test follow?  (decides which of the two state
-    # covers the real Poll is driven through in the quick tier; never a verdict)
-    probe, _ = replay([list(x) for x in gen_hist], ['poll'])
+    # which Poll algorithm does the tree under test follow?  (only selects the model lines the real
+    # Poll is compared with; never a verdict)
+    probe, _ = replay_history([list(x) for x in gen_hist], ['poll'])
     tree_variant = None
     for kd in ('poll', 'pollfix'):
         if model_lines(kd, gen_hist) == probe:
             tree_variant = kd
 
-    suite = {}        # history -> [set of pollers, origin]
-
-    def add(h, pollers, origin):
-        if not h:
-            return
-        e = suite.setdefault(h, [set(), origin])
-        e[0].update(pollers)
-
-    add(gen_hist, POLLERS, 'tlc-counterexample')
-    for kd in ('select', 'poll', 'pollfix', 'epoll'):
-        if quick and kd in ('poll', 'pollfix') and tree_variant and kd != tree_variant:
-            continue
-        for h in maximal({k[1] for k in model if k[0] == kd}):
-            # quick: the cover of an algorithm is replayed on the poller it models; thorough: on all three
-            add(h, [PNAME[kd]] if quick else POLLERS, 'tlc-state-cover')
-    phase('mc+cover')
-    hist_states = 0
-    if not quick:
-        # the same over objects 1, 2, 3 (both ends of a pair registered), fixed algorithms; TLC itself
-        # reports the violation of the stale variant; every history of <= 4 operations over 1, 2, 3
-        mc2 = tlc.model_check(SPEC, 'Poller', 'MC_Poller_thorough.cfg')
-        mc_states += mc2.distinct
-        mc_trans += mc2.generated
-        st = tlc.run_tlc(SPEC, 'Poller', 'MC_Poller_stale.cfg')
-        if st.violated != 'ConformsAll':
-            raise tlc.MachineryError('MC_Poller_stale.cfg: expected a violation of ConformsAll, got %r' % st.violated)
-        phase('mc_thorough')
-        res, model4, _ = dump_histories('HIST_Poller_thorough.cfg')
-        hist_states = res.distinct
-        for k, v in model4.items():
-            model.setdefault(k, v)
-        for h in maximal({k[1] for k in model4}):
-            add(h, POLLERS, 'tlc-history')
-        phase('dump')
-    #    seeded deeper behaviours of the same model, on all three pollers
-    nsim, depth = (400, 8) if quick else (3000, 9)
+    #    seeded deeper behaviours of the same model
+    nsim, depth = (400, 9) if quick else (2000, 9)
     _, behs = tlc.simulate(SPEC, 'Poller', 'SIM_Poller.cfg' if quick else 'SIM_Poller_thorough.cfg', nsim, depth, ctx.seed + 1)
     for beh in behs:
         if not beh:
@@ -750,17 +755,17 @@ def run(tier, replay=None):
         kd = beh[-1][1]['kind']
         for _, st in beh[1:]:
             model.setdefault((kd, hkey(st['hist'])), st['out'])
-        add(h, POLLERS, 'tlc-simulation')
+        add(h, 'tlc-simulation')
     phase('simulate')
 
     hists = sorted(suite, key=repr)
-    cases = [(h, [p for p in POLLERS if p in suite[h][0]], suite[h][1]) for h in hists]
-    results = [replay([list(x) for x in h], ps) for h, ps, _ in cases]
+    cases = [(h, list(POLLERS), suite[h]) for h in hists]
+    results = [replay_history([list(x) for x in h], ps) for h, ps, _ in cases]
     traces = [r[0] for r in results]
     phase('replay')
 
     # 3. TLC judges every trace
-    verdicts, stats = judge(traces, shards=4 if quick else 8)
+    verdicts, stats = judge(traces, shards=2 if quick else 8)
     phase('judge')
     accepted = []
     n_events = 0
@@ -782,13 +787,11 @@ def run(tier, replay=None):
     for (h, ps, org), (lines, notes) in zip(cases, results):
         for p in ps:
             real = only(lines, (p,))
-            kinds = ['poll', 'pollfix'] if p == 'poll' else [p]
+            kinds = ([tree_variant] if tree_variant else ['poll', 'pollfix']) if p == 'poll' else [p]
             ml = {kd: model_lines(kd, h) for kd in kinds}
             ml = {kd: v for kd, v in ml.items() if v is not None}
-            if p == 'poll' and tree_variant and len(ml) == 2:
-                ml = {tree_variant: ml[tree_variant]}
-            if not ml or (p == 'poll' and tree_variant not in ml):
-                continue          # no model lines for the algorithm this tree follows
+            if not ml:
+                continue          # this history was not enumerated for the algorithm the tree follows
             cmp_n += 1
             hit = [kd for kd, v in ml.items() if v == real]
             if hit:
@@ -810,7 +813,7 @@ def run(tier, replay=None):
         if m:
             muts.append(m)
     if muts:
-        mv, _ = validate([m[0] for m in muts], shards=2)
+        mv, _ = validate([m[0] for m in muts], shards=1 if quick else 4)
         missed = [(muts[i][1], c) for i, (c, _) in enumerate(mv) if c not in muts[i][2]]
         if missed:
             raise tlc.MachineryError('trace spec mis-judged %d corrupted traces, e.g. %s -> %r' % (len(missed), missed[0][0], missed[0][1]))
@@ -826,18 +829,18 @@ def run(tier, replay=None):
         'states': mc_states, 'transitions': mc_trans,
         'traces_validated_against_impl': len(traces),
         'model_histories_replayed': len(hists), 'poller_replays': sum(len(c[1]) for c in cases),
-        'state_cover_states': mc.distinct, 'history_dump_states': hist_states,
+        'state_cover_states': cover_states, 'history_dump_states': hist_states,
         'simulated_behaviours': len(behs),
         'events_observed': n_events,
         'model_line_exact_match': cmp_ok, 'model_line_compared': cmp_n,
         'poll_matches_variant': poll_matches, 'poll_tree_variant': tree_variant,
         'trace_validation_states': stats['states'], 'phase_seconds': phases,
         'corrupted_traces_rejected': len(muts), 'corrupted_traces_by_clause': corrupt_by_clause,
-        'stale_variant_counterexample': {'clause': 'C10.ghost_fd', 'hist': gen_hist, 'model_states_violating': len(gen)},
-        'rule': 'cases = environment histories (registration + kernel operations over 2 socket pairs): the first-discovery '
-                'history of every state of the complete reachable state space of Poller.tla (objects 1, 3 registrable), the '
-                'shortest counterexample of the stale-map variant, (thorough) every history of 4 operations with objects '
-                '1, 2, 3 registrable, plus seeded TLC simulations; each replayed on the real Select, Poll and EPoll (one combined trace); '
+        'stale_variant_counterexample': {'violated': gen.violated, 'clause': gen_clause, 'hist': gen_hist},
+        'rule': 'cases = environment histories (registration + kernel operations over 2 socket pairs): every maximal history '
+                'of <= 4 operations TLC enumerates for Poller.tla (quick: objects 1, 3 registrable; thorough: 1, 2, 3), the '
+                'counterexample of the stale-map variant, seeded TLC simulations of up to 8 operations, and (thorough) the '
+                'first-discovery history of every state of the complete reachable state space; each replayed on the real Select, Poll and EPoll (one combined trace); '
                 'non-trivial = at least one readiness event observed; distinct by hash of the history',
         'exhaustive': False,
     }, assumptions=[
